@@ -152,7 +152,7 @@ CHECKS = {
         'text': 'Static: every swap_subtrees is dominated by invalidation of the cached ranks it changes (clearing loop over path(c1,c2), the three '
                 'explicit clears for adjacent parents, or clear_ranks()), move_subtree by clear_ranks(); the surgery primitives are called only from the '
                 'three invalidating moves; every keyed access to the rank cache uses the canonical (min,max) key and the field is private; the annealer '
-                'replaces its best tree only under width < best_width and returns it; the two-distinct-indices idioms are proved by zone-domain abstract interpretation.',
+                'replaces its best tree only under width < best_width and returns it; the two-distinct-indices idioms are proved by zone-domain abstract interpretation; the moves return early unless the tree is large enough (3 leaves / 6 nodes / a path of 4), replace_neighbor rewrites the first occurrence only, the annealer does not divide by an integer score that can be 0.',
         'note': TB + 'Not decided: tree validity after surgery, equality of cached and recomputed widths as values, panic freedom of the surgery.',
         'technique': 'dominance/pairing rule for cache invalidation, who-may-call, canonical-key rule, zone-domain abstract interpretation',
     },
